@@ -66,7 +66,11 @@ func init() {
 				scn{role: "outSender", steps: []string{"new outSender " + chain, "agree", "txmsg", "fault preimage-after down", "confirm"}},
 				scn{role: "inReceiver", steps: []string{"new inReceiver " + chain, "txmsg", "fault preimage-after down", "confirm"}},
 				scn{role: "inSender", steps: []string{"new inSender " + chain, "agree", blocks, "fault csv-after down", "csv"}},
-				scn{role: "outReceiver", steps: []string{"new outReceiver " + chain, "feepaid", blocks, "fault csv-after down", "csv"}})
+				scn{role: "outReceiver", steps: []string{"new outReceiver " + chain, "feepaid", blocks, "fault csv-after down", "csv"}},
+				// … the cooperative spend reached the chain, its reply was lost: the fallback to the CSV refund
+				// double-spends it
+				scn{role: "inSender", steps: []string{"new inSender " + chain, "agree", "fault coop-after down", "coop", blocks, "csv"}},
+				scn{role: "outReceiver", steps: []string{"new outReceiver " + chain, "feepaid", "fault coop-after down", "coop", blocks, "csv"}})
 		}
 		seen := map[string]bool{}
 		runMany(defaultCfg(), all, func(x scnResult) {
